@@ -15,13 +15,13 @@ structure State where
 /-- Service TYPE of the harness ↦ the service name it registers under.  D and E are two types
 sharing the name 3 ("shared"); S is a four-message service; P0..P7 are single-message bystanders. -/
 def svcName : String → Option Nat
-  | "A" => some 0 | "B" => some 1 | "C" => some 2 | "D" => some 3 | "E" => some 3 | "S" => some 4
+  | "A" => some 0 | "B" => some 1 | "C" => some 2 | "D" => some 3 | "E" => some 3 | "S" => some 4 | "G" => some 5
   | "P0" => some 10 | "P1" => some 11 | "P2" => some 12 | "P3" => some 13
   | "P4" => some 14 | "P5" => some 15 | "P6" => some 16 | "P7" => some 17 | _ => none
 
 /-- Handler keys of a service type (hash injectivity: distinct numbers; key = 100 * name + message). -/
 def keysOfType : String → List Nat
-  | "A" => [1] | "B" => [101] | "C" => [201, 202] | "D" => [301] | "E" => [302] | "S" => [401, 402, 403, 404]
+  | "A" => [1] | "B" => [101] | "C" => [201, 202] | "D" => [301] | "E" => [302] | "S" => [401, 402, 403, 404] | "G" => [501]
   | "P0" => [1001] | "P1" => [1101] | "P2" => [1201] | "P3" => [1301]
   | "P4" => [1401] | "P5" => [1501] | "P6" => [1601] | "P7" => [1701] | _ => []
 
@@ -67,6 +67,12 @@ def step (st : State) (toks : List String) : State × String :=
     match svcName s with
     | some n => ({ reg := removeHandlers st.reg n, evs := .remove n :: st.evs }, "ok")
     | none => (st, "bad-op")
+  | ["callp", s, m] =>
+    -- the same request over the long-lived connection of the case: dispatch does not depend on the connection
+    match svcName s, keyOf s m with
+    | some _, some k =>
+      (st, showCall (getHandler st.reg k) ++ "\t#spec " ++ showCall (registered st.evs k))
+    | _, _ => (st, "bad-op")
   | ["call", s, m] =>
     match svcName s, keyOf s m with
     | some _, some k =>
